@@ -105,7 +105,7 @@ structure Thread where
   deriving Repr
 
 inductive FPhase
-  | absent | fresh | started (hasNode : Bool) | done
+  | absent | fresh | startedNoNode | startedNode | done
   deriving DecidableEq, Repr
 
 structure Fut where
@@ -173,9 +173,9 @@ def pollHead (cfg : Cfg) (s : State) (t : Tid) : State :=
   else
     let f := curF th
     let s1 : State :=
-      if (s.fut f).phase = .started false then
+      if (s.fut f).phase = .startedNoNode then
         { s with wl := s.wl.putNode (.fut f) (Node.fresh th.wr (myWaiter t th))
-                 fut := upd s.fut f { s.fut f with phase := .started true } }
+                 fut := upd s.fut f { s.fut f with phase := .startedNode } }
       else s
     withPc s1 t (.llSwap .queue)
 
@@ -188,7 +188,7 @@ def taSucc (s : State) (t : Tid) (k : TaK) : State :=
   | .try_ => withPc s t (.ret .ok)
   | .asyncFirst => pollDone s t true
   | .pollTry =>
-    if (s.fut (curF th)).phase = .started true then withPc s t (.llSwap .finish) else pollDone s t true
+    if (s.fut (curF th)).phase = .startedNode then withPc s t (.llSwap .finish) else pollDone s t true
 
 def taFail (cfg : Cfg) (s : State) (t : Tid) (k : TaK) : State :=
   let th := s.th t
@@ -199,7 +199,7 @@ def taFail (cfg : Cfg) (s : State) (t : Tid) (k : TaK) : State :=
   | .spin => withPc s t .spinYield
   | .try_ => withPc s t (.ret .none)
   | .asyncFirst =>
-    pollHead cfg { s with fut := upd s.fut (curF th) { s.fut (curF th) with phase := .started false }
+    pollHead cfg { s with fut := upd s.fut (curF th) { s.fut (curF th) with phase := .startedNoNode }
                           th := upd s.th t { th with i := 0 } } t
   | .pollTry => pollHead cfg (setTh s t { th with i := th.i + 1 }) t
 
@@ -240,7 +240,7 @@ def afterRel (s : State) (t : Tid) (a : After) : State :=
   match a with
   | .retOk => withPc s t (.ret .ok)
   | .retReady =>
-    pollDone { s with fut := upd s.fut (curF th) { s.fut (curF th) with phase := .started false } } t true
+    pollDone { s with fut := upd s.fut (curF th) { s.fut (curF th) with phase := .startedNoNode } } t true
   | .dropLoad => withPc s t .dLoad
   | .parkLoad => withPc s t .wLoad
   | .pending => pollDone s t false
@@ -280,7 +280,7 @@ def callStep (cfg : Cfg) (s : State) (t : Tid) (op : ROp) : State :=
         { s with fut := upd s.fut f { s.fut f with busy := true }
                  wakes := upd s.wakes f 0
                  th := upd s.th t { th with pc := .taLoad .asyncFirst, wr := (s.fut f).wr, cur := some f, blockOn := false } }
-      | .started _ =>
+      | .startedNoNode | .startedNode =>
         pollHead cfg
           { s with fut := upd s.fut f { s.fut f with busy := true }
                    wakes := upd s.wakes f 0
@@ -290,7 +290,7 @@ def callStep (cfg : Cfg) (s : State) (t : Tid) (op : ROp) : State :=
     if (s.fut f).busy then withPc s t (.ret .invalid)
     else match (s.fut f).phase with
       | .absent => withPc s t (.ret .invalid)
-      | .started true =>
+      | .startedNode =>
         { s with fut := upd s.fut f { s.fut f with busy := true }
                  th := upd s.th t { th with pc := .llSwap .drop, wr := (s.fut f).wr, cur := some f, blockOn := false } }
       | _ => withPc { s with fut := upd s.fut f { s.fut f with phase := .absent, busy := false } } t (.ret .ok)
